@@ -585,6 +585,25 @@ def or_(*xs):
             return True
     if not out:
         return False
+    # isinstance(x, A) or isinstance(x, B)  ==  isinstance(x, A + B)
+    merged = []
+    for p in out:
+        if p.op == 'isinstance' and isinstance(p.args[1], tuple) and \
+                all(isinstance(n, str) for n in p.args[1]):
+            hit = None
+            for i, q in enumerate(merged):
+                if q.op == 'isinstance' and q.args[0] is p.args[0] and \
+                        isinstance(q.args[1], tuple) and \
+                        all(isinstance(n, str) for n in q.args[1]):
+                    hit = i
+                    break
+            if hit is not None:
+                q = merged[hit]
+                merged[hit] = Sym('isinstance', q.args[0], tuple(sorted(
+                    set(q.args[1]) | set(p.args[1]))))
+                continue
+        merged.append(p)
+    out = merged
     if len(out) == 1:
         return out[0]
     return Sym('or', *out)
